@@ -5,8 +5,8 @@ NOT_PROVED = {
          "the model never exhibits the partially applied truncate/delete the property tolerates; the oracle accepts it",
          "continued use after a recovery that left a torn frame on disk is proved at stream level only (torn_then_append); a crash during open's own recovery-time GC writes is covered by the crash oracle (restart histories) only",
          "real kernel write atomicity/ordering is assumed as the property states (program-order effects, byte-prefix writes)"],
- "C03": ["process-crash model: nothing essential - C03_process_crash / C03_persisted_survives are proved end to end under every policy; premises: global invariant at the persist point, hist_wf, stream and CB bounds (everything fits below 2^64 files), no_zero_collision (the 'up to a CRC collision' proviso, satisfiable: torn_hyps_sat)",
-         "power-loss model: proved at the event-trace level only (every write followed by a sync of its file survives: power_filter_all_synced_app; FlushAndFsync leaves everything synced: step_fsync_durable; unlink only after sync); what open makes of a power-loss image is decided by the correspondence and the persist-point oracle; metadata (create / set_len / unlink) is taken as immediately durable, the worst case for unlink-before-sync; reordering of unsynced metadata by a real file system is outside the model"],
+ "C03": ["nothing essential in the model: C03_process_crash / C03_persisted_survives (process crash) and C03_power_loss / C03_fsynced_survives_power_loss (power loss) are proved end to end under every policy; premises: global invariant at the persist point, hist_wf, stream and CB bounds (everything fits below 2^64 files), no_zero_collision (the 'up to a CRC collision' proviso, satisfiable: torn_hyps_sat)",
+         "power-loss MODEL: metadata (create / set_len / unlink) is taken as immediately durable - the worst case for unlink-before-sync; reordering or loss of unsynced metadata by a real file system (a created file vanishing, an unlinked file reappearing) is outside the model"],
  "C04": [
    "nothing essential: live, across clean restarts (RestartCorollaries.v) and after recovery from any crash image under any policy (CrashCorollaries.crash_next_positions, crash_next_after_persist) next positions are those of a specification state at least as recent as the persist point; power-loss recovery is covered by the oracle only"
   ],
